@@ -123,10 +123,15 @@ func (c *Ctx) dumpState() {
 // runSharded runs shardFns[name] in nshards child processes (at most `par`
 // at a time) and merges their observations into c.
 func (c *Ctx) runSharded(name string, nshards, par int, race bool, watchdog time.Duration) {
+	c.runShardedBin(name, nshards, par, race, watchdog, "")
+}
+
+// runShardedBin: as runSharded, with an explicit binary (e.g. the same harness built for another architecture).
+func (c *Ctx) runShardedBin(name string, nshards, par int, race bool, watchdog time.Duration, useBin string) {
 	if par <= 0 {
 		par = 16
 	}
-	bin := ""
+	bin := useBin
 	if race {
 		bin = raceBin()
 		if bin == "" {
